@@ -92,7 +92,7 @@ def run(c):
         if s["k"] == 0:
             raise vf.FrameworkError("fault-free run of %s rejected: %s" % (s["sc"], e))
         seen[key] = seen.get(key, 0) + 1
-        if seen[key] <= 2:
+        if c.want_reproduction(key, seen[key]):
             c.reproduce_trace("faults", s["sc"], "DepFaultsTrace", "DepFaultsTrace.cfg", ("sc", "panic", "ev", "ncalls"), env=env)
         c.report(key, "%s with %s at dependency call %d (%s): result %s, calls after the fault %s" % (s["api"], s["kind"], s["k"], fd, e.get("res"), after),
                  dict({"scenario": s, "deps": deps, "end": e}, **c.rp("faults", s, validate=("DepFaultsTrace", "DepFaultsTrace.cfg"), strip=("sc", "panic", "ev", "ncalls"))))
